@@ -147,6 +147,7 @@ PROPS = {
         gen=[("intertx_g", 120, 30)], gen_t=[("intertx_g", 1200, 40)],
     ),
     "C15": dict(family="iri", mc=[], inv=[], step=[], tinv=[]),
+    "C19": dict(family="dec", mc=[], inv=[], step=[], tinv=[]),
     "C16": dict(
         family="data", mc_module="MC_Data", trace_module="TraceData", edge_q=["data_e4"], edge=["data_e4", "data_e5"],
         mc=[("data_q", 300), ("data_buckets_q", 300), ("data_equal_q", 300), ("data_res_q", 300)],
@@ -177,9 +178,7 @@ PROPS = {
 
 HOOK_COMMITS = ["65ff9943f"]
 
-NOT_APPLICABLE = {
-    "C19": "numeric accuracy of pure decimal functions over 34-digit coefficients: TLC integers are 32-bit and there is no state machine to specify (DESIGN.md 5, C19)",
-}
+NOT_APPLICABLE = {}
 
 
 # ---------------------------------------------------------------- manifest texts
@@ -209,6 +208,7 @@ TEXT = {
     "C16": dict(text=_MC + "The ID hash function is a constant table of the specification injected into the real data server through the one build-tag hook, so collisions are the norm.", technique="TLA+ spec with weak hash tables + TLC model checking + trace validation with injected hasher"),
     "C17": dict(text="Every list query is a TLA+ operator over the specification's state (QExpect); the harness walks the real queries page by page (page sizes 1,2,3,5,100; key- and offset-based; no page request) through the gRPC query router at states of TLC-generated behaviours and TLC compares items, duplicates, totals and single-entity answers. Exploration: no exhaustive model run applies.", technique="TLA+ query operators evaluated by TLC on real states (trace validation)"),
     "C18": dict(text=_MC + "'No accepted parameter disables a feature' is Pre_T => ok checked by TLC in every reachable parameter configuration; counterexamples of the specification are replayed on the code (three defects found and fixed this way).", technique="TLA+ precondition/guard implication + TLC model checking over parameter configurations + counterexample replay + trace validation"),
+    "C19": dict(text="A functional TLA+ specification of the decimal arithmetic (Dec.tla) computes on DIGIT SEQUENCES, so 34-digit coefficients, 68-digit exact products and 36-digit quotients are exact although TLC's integers are 32-bit. TLC checks the specification against its built-in integers on all pairs of small decimals (MC_Dec: add, sub, mul, div/mod, compare, truncation, rounding); the real types/math functions (parse, String, Add, Sub, Mul, MulExact, Quo, QuoExact, SafeSubBalance, SdkIntTrim, Cmp) are executed on boundary and seeded random operand strings and TLC validates every result against the specification (syntax accepted, exact value, 34-digit half-up rounding, exact-or-error, negative balance, truncation toward zero, plain rendering that re-parses to the same number, operands unchanged).", technique="functional TLA+ spec over digit sequences + TLC over all pairs of small decimals + result validation by TLC", note="the specification is the reference; it is itself checked against TLC's integers only for small operands; Rem and QuoInteger are not covered"),
     "C20": dict(text=_MC + "ibc-go is represented by recording stand-ins whose tables the behaviour's environment steps set; the real keeper and Msg service run through ABCI.", technique="TLA+ spec + TLC model checking over availability combinations + trace validation", note="stand-ins for the ICA controller and capability keepers; " + _NOTE),
 }
 for _k in TEXT:
